@@ -159,6 +159,17 @@ def check_c15(tier, rep=None, only_complete=False):
             if rv.random() < 0.6:
                 small += cvgen.random_small_variants(rv, m['ref'], tt, rv.randrange(1, 4), kinds=('SNV', 'SNV', 'INS', 'DEL'),
                                                      lo=0 if rv.random() < 0.3 else None)
+        # a substitution on the second-to-last base of an exon: next to a breakpoint that keeps one or two intronic bases
+        for tt in m['ref'].txs.values():
+            cum = 0
+            sq = tt.seq(m['ref'].chroms['chr1'])
+            for ex in (tt.exons if tt.strand == 1 else list(reversed(tt.exons)))[:-1]:
+                cum += ex[1] - ex[0]
+                p_ = cum - 2
+                if rv.random() < 0.35 and p_ >= ((tt.cds_start + 3) if tt.coding else 3):
+                    v = cvgen.snv_at(m['ref'], tt, sq, p_, rv.choice([b for b in 'ACGT' if b != sq[p_]]))
+                    if not cvgen.overlaps_any(v, small):
+                        small.append(v)
         m['small'] = small
         inputs = [os.path.join(m['d'], 'star.gvf')]
         if small:
